@@ -1,5 +1,5 @@
 """C11 driver: genuine Merkle proofs (from TLC-enumerated prunings and random ones) and forgeries through check_proof,
-check_block_header_proof and check_account_proof."""
+check_block_header_proof, check_account_proof and check_shard_proof."""
 import random
 
 import cellkit as ck
@@ -16,7 +16,7 @@ RULE = ('generic: every (tree, pruning, wrapper) state of the directed pruning m
         'as a genuine proof plus forgeries {wrong expected hash, flipped data bit of an unpruned cell, dropped/duplicated/swapped '
         'reference, substituted pruned hash, altered pruned depth, not a Merkle cell, altered stored hash, altered cell arriving in a bag of cells that stores the original hash next to it}; header: synthetic blocks '
         'with every subset of children pruned; account: shard states with 1-3 accounts, genuine + {wrong account cell, pruned-branch as '
-        'account, absent address, wrong block, wrong state, swapped roots, single root}; distinct = distinct (kind, proof root hash)')
+        'account, absent address, wrong block, wrong state, swapped roots, single root}; shard: masterchain states with ShardHashes over two workchains, genuine (siblings / other workchain pruned, update children re-pruned, the block itself) + {wrong block hash, seqno, not a masterchain id, unknown shard block, shard of another workchain, unlisted workchain, descriptor or workchain pruned away, other state, stored-hash-only state proof, uncommitted level-0 slot, swapped roots, single root}; distinct = distinct (kind, proof root hash)')
 ASSUMPTIONS = ['TonProof.CheckProof / CheckBlockHeader / AccountAccepts decide acceptance from the recorded cells with TLC-computed SHA-256; '
                'soundness of CheckProof itself (no forged candidate accepted) is model-checked with an injective symbolic hash (MC_Proof)',
                'the stored depth of a pruned branch standing for the WHOLE tree is not checked by anyone (noted observation, not demanded)',
@@ -532,6 +532,130 @@ def account_records(rng, n=None):
     return out
 
 
+# ------------------------------------------------------------------ shard proofs (check_shard_proof)
+def shard_records(rng):
+    """a masterchain block + its state with ShardHashes; the proof that a shard block (by root hash) is registered in it.
+    Everything the library's parsers read on the way (block info, the McStateExtra cell and its auxiliary cell, the config
+    reference) is present and well-formed in every case; only the named ingredient of each forgery differs."""
+    from pytoniq_core.proof.check_proof import check_shard_proof
+    rb = lambda n: bytes(rng.getrandbits(8) for _ in range(n))
+
+    def shard_descr(root_hash, seqno):
+        return (begin_cell().store_uint(0xb, 4).store_uint(seqno, 32).store_uint(rng.getrandbits(20), 32).store_uint(rng.getrandbits(40), 64)
+                .store_uint(rng.getrandbits(40), 64).store_bytes(root_hash).store_bytes(rb(32))
+                .store_uint(0, 5).store_uint(0, 3).store_uint(7, 32).store_uint(1 << 63, 64).store_uint(5, 32).store_uint(1700000000, 32)
+                .store_bit(0).store_coins(rng.choice([0, 10 ** 9])).store_bit(0).store_coins(0).store_bit(0)).end_cell()
+
+    def bintree(descrs, prune=()):
+        if len(descrs) == 1:
+            c = begin_cell().store_bit(0).store_cell(descrs[0][1]).end_cell()
+            return pruned(c) if descrs[0][0] in prune else c
+        h = len(descrs) // 2
+        return begin_cell().store_bit(1).store_ref(bintree(descrs[:h], prune)).store_ref(bintree(descrs[h:], prune)).end_cell()
+
+    def state_with(shards, prune=(), prune_wc=()):
+        hm = HashMap(32, value_serializer=lambda v, dest: dest.store_ref(v))
+        for wc, descrs in shards.items():
+            t = bintree(descrs, prune)
+            hm.set_int_key(wc, pruned(t) if wc in prune_wc else t)
+        d = hm.serialize()
+        cfgd = HashMap(32, value_serializer=lambda v, dest: dest.store_ref(v))
+        cfgd.set_int_key(0, begin_cell().store_bytes(b'\x55' * 32).end_cell())
+        aux = (begin_cell().store_uint(0, 16).store_uint(77, 32).store_uint(78, 32).store_bit(0)
+               .store_bit(0).store_bit(0).store_uint(0, 64).store_bit(0).store_bit(0).end_cell())
+        extra = (begin_cell().store_uint(0xcc26, 16).store_bit(1).store_ref(d).store_bytes(b'\x55' * 32).store_ref(cfgd.serialize()).store_ref(aux)
+                 .store_coins(10 ** 9).store_bit(0).end_cell())
+        a = Address((0, b'\x42' * 32))
+        accounts = shard_accounts(random.Random(7), [(a, account_cell(random.Random(7), a))])
+        outq = begin_cell().store_uint(0xabc, 12).end_cell()
+        third = (begin_cell().store_uint(0, 64).store_uint(0, 64).store_coins(10 ** 9).store_bit(0).store_coins(0).store_bit(0)
+                 .store_bit(0).store_bit(0).end_cell())
+        head = (begin_cell().store_bytes(bytes.fromhex('9023afe2')).store_int(-239, 32)
+                .store_uint(0, 2).store_uint(0, 6).store_int(-1, 32).store_uint(1 << 63, 64)
+                .store_uint(100, 32).store_uint(0, 32).store_uint(1700000000, 32).store_uint(78, 64).store_uint(90, 32))
+        full = (begin_cell().store_bits(head.bits).store_ref(outq).store_bit(0).store_ref(accounts).store_ref(third).store_bit(1).store_ref(extra).end_cell())
+        shown = (begin_cell().store_bits(head.bits).store_ref(pruned(outq)).store_bit(0).store_ref(pruned(accounts)).store_ref(pruned(third))
+                 .store_bit(1).store_ref(extra).end_cell())
+        return full, shown
+
+    def block_for(state, seqno, wc=-1):
+        prev = begin_cell().store_uint(5, 64).store_uint(seqno - 1, 32).store_bytes(rb(32)).store_bytes(rb(32)).end_cell()
+        info = (begin_cell().store_bytes(bytes.fromhex('9bc7a987')).store_uint(0, 32).store_uint(0, 8).store_uint(0, 8)
+                .store_uint(seqno, 32).store_uint(0, 32).store_uint(0, 2).store_uint(0, 6).store_int(wc, 32).store_uint(1 << 63, 64)
+                .store_uint(1700000000, 32).store_uint(10, 64).store_uint(20, 64).store_uint(1, 32).store_uint(2, 32).store_uint(3, 32).store_uint(4, 32)
+                .store_ref(prev).end_cell())
+        vf = begin_cell().store_uint(rng.getrandbits(32), 32).end_cell()
+        ex = begin_cell().store_uint(rng.getrandbits(32), 32).end_cell()
+        upd = mupdate(pruned(begin_cell().store_uint(rng.getrandbits(8), 8).end_cell()), pruned(state))
+        full = begin_cell().store_bytes(bytes.fromhex('11ef55aa')).store_int(-239, 32).store_ref(info).store_ref(vf).store_ref(upd).store_ref(ex).end_cell()
+        shown = begin_cell().store_bits(full.bits).store_ref(info).store_ref(pruned(vf)).store_ref(upd).store_ref(pruned(ex)).end_cell()
+        return full, shown, upd
+
+    out = []
+    target, sib, otherwc = rb(32), rb(32), rb(32)
+    nsib = rng.choice([1, 2, 3])
+    descrs0 = [('s%d' % i, shard_descr(rb(32), 100 + i)) for i in range(nsib)] + [('t', shard_descr(target, 200))]
+    rng.shuffle(descrs0)
+    shards = {0: descrs0, 5: [('o', shard_descr(otherwc, 300))]}
+    seqno = rng.choice([1, 1000, (1 << 31) - 1, rng.getrandbits(30)])
+    state, state_p = state_with(shards)
+    block, block_p, upd = block_for(state, seqno)
+    blk = BlockIdExt(-1, -2 ** 63, seqno, block.hash, b'\x22' * 32)
+    shrd = BlockIdExt(0, -2 ** 63, 200, target, b'\x33' * 32)
+    roots = [mproof(block_p), mproof(state_p)]
+    cases = [('genuine_shard', True, roots, blk, shrd)]
+    # genuine with more pruned: every other descriptor, the other workchain's tree
+    _, sp2 = state_with(shards, prune={n for n, _ in descrs0 if n != 't'}, prune_wc={5})
+    cases.append(('genuine_shard_siblings_pruned', True, [roots[0], mproof(sp2)], blk, shrd))
+    cases.append(('genuine_shard_other_workchain', True, roots, blk, BlockIdExt(5, -2 ** 63, 300, otherwc, b'\x33' * 32)))
+    # the block itself is trivially "in" itself: nothing is looked at
+    cases.append(('genuine_same_block', True, roots, blk, BlockIdExt(-1, -2 ** 63, seqno, block.hash, b'\x22' * 32)))
+    # forgeries
+    cases.append(('forged_wrong_block_hash', False, roots, BlockIdExt(-1, -2 ** 63, seqno, rb(32), b'\x22' * 32), shrd))
+    cases.append(('forged_wrong_seqno', False, roots, BlockIdExt(-1, -2 ** 63, seqno ^ 1, block.hash, b'\x22' * 32), shrd))
+    cases.append(('forged_not_masterchain_id', False, roots, BlockIdExt(0, -2 ** 63, seqno, block.hash, b'\x22' * 32), shrd))
+    cases.append(('forged_unknown_shard_block', False, roots, blk, BlockIdExt(0, -2 ** 63, 200, rb(32), b'\x33' * 32)))
+    cases.append(('forged_shard_of_other_workchain', False, roots, blk, BlockIdExt(5, -2 ** 63, 200, target, b'\x33' * 32)))
+    cases.append(('forged_unlisted_workchain', False, roots, blk, BlockIdExt(7, -2 ** 63, 200, target, b'\x33' * 32)))
+    _, sp3 = state_with(shards, prune={'t'})
+    cases.append(('forged_descriptor_pruned_away', False, [roots[0], mproof(sp3)], blk, shrd))
+    _, sp4 = state_with(shards, prune_wc={0})
+    cases.append(('forged_workchain_pruned_away', False, [roots[0], mproof(sp4)], blk, shrd))
+    # another state (it lists the shard block) under a genuine block
+    forged_hash = rb(32)
+    shards2 = {0: [(n, c) for n, c in descrs0 if n != 't'] + [('t', shard_descr(forged_hash, 200))]}
+    st2, st2p = state_with(shards2)
+    cases.append(('forged_other_state', False, [roots[0], mproof(st2p)], blk, BlockIdExt(0, -2 ** 63, 200, forged_hash, b'\x33' * 32)))
+    cases.append(('forged_state_proof_stored_hash_only', False,
+                  [roots[0], Builder(type_=3).store_uint(3, 8).store_bytes(state_p.get_hash(0)).store_uint(state_p.get_depth(0), 16).store_ref(st2p).end_cell()],
+                  blk, BlockIdExt(0, -2 ** 63, 200, forged_hash, b'\x33' * 32)))
+    cases.append(('forged_swapped_roots', False, [roots[1], roots[0]], blk, shrd))
+    cases.append(('forged_single_root', False, [roots[0]], blk, shrd))
+    # the state smuggled in through the level-0 slot of a re-pruned new-state branch (not covered by the block hash)
+    o2, n2 = pruned(upd.refs[0], 2), pruned(upd.refs[1], 2)
+    y = bytearray(n2.begin_parse().load_bytes(len(n2.bits) // 8))
+    y[2:34] = st2.get_hash(0)
+    n2f = Builder(type_=1).store_bytes(bytes(y)).end_cell()
+    for n_, label, genuine, sroot, sh in ((n2, 'genuine_shard_update_children_repruned', True, roots[1], shrd),
+                                          (n2f, 'forged_state_through_uncommitted_level0_slot', False, mproof(st2p), BlockIdExt(0, -2 ** 63, 200, forged_hash, b'\x33' * 32))):
+        u2 = Builder(type_=4).store_bytes(bytes(upd.begin_parse().load_bytes(len(upd.bits) // 8))).store_ref(o2).store_ref(n_).end_cell()
+        b2 = begin_cell().store_bits(block_p.bits).store_ref(block_p.refs[0]).store_ref(block_p.refs[1]).store_ref(u2).store_ref(block_p.refs[3]).end_cell()
+        cases.append((label, genuine, [mproof(b2), sroot], blk, sh))
+    for label, genuine, rts, b, sh in cases:
+        heap, ridx, _ = ck.project(rts)
+        rec = {'op': 'shard', 'label': label, 'genuine': int(genuine), 'cells': heap, 'roots': ridx,
+               'same': int(b == sh), 'blk': {'wc': b.workchain, 'wc4': list((b.workchain & 0xffffffff).to_bytes(4, 'big')),
+                                             'seqno4': list((b.seqno & 0xffffffff).to_bytes(4, 'big')), 'root': list(b.root_hash)},
+               'shrd': {'wc4': list((sh.workchain & 0xffffffff).to_bytes(4, 'big')), 'root': list(sh.root_hash)}}
+        try:
+            check_shard_proof(multi_boc(rts), b, sh)
+            rec['out'] = {'ok': 1}
+        except Exception as e:
+            rec['out'] = {'err': type(e).__name__}
+        out.append(rec)
+    return out
+
+
 def generate(tier, seed, ctx):
     rng = random.Random(seed)
     q = tier == 'quick'
@@ -571,6 +695,8 @@ def generate(tier, seed, ctx):
         out += deep_header_records(rng)
     for k in range(5 if q else 200):
         out += account_records(rng, n=(2, 3, None, None, 1)[k % 5])
+    for k in range(3 if q else 100):
+        out += shard_records(rng)
     return out
 
 
